@@ -83,8 +83,10 @@ CHECKS = {
         "accepted; a Hypothesis state machine drives utils.Scope against a "
         "two-level dictionary model.",
         "Trusts the scope-chain model; K4 attributed only via the "
-        "flat-dictionary deviation model; macro-related scoping is checked "
-        "under C09.",
+        "flat-dictionary deviation model; in-place macros, global repeats "
+        "and engine helper names are generated here, macros with fillers "
+        "under C09; K13 (translate / decode / on_error_handler unreadable) "
+        "is attributed by name.",
         "DESIGN.md 3/C05"),
     "C09": (
         "exploration",
@@ -116,9 +118,10 @@ CHECKS = {
         "translation function; the ordered list of calls with every argument "
         "(msgid, mapping, default, domain, context, target_language) and the "
         "output are compared with a reference model of the contract.",
-        "Trusts the model in checks/c10.py; macros are not combined with "
-        "i18n settings; the translation function is environment shared by "
-        "model and implementation.",
+        "Trusts the model in checks/c10.py; the macros part compares with the "
+        "same model run on the hand-inlined tree (fillers marked with the "
+        "settings of the place where they were written); the translation "
+        "function is environment shared by model and implementation.",
         "DESIGN.md 3/C10"),
     "C11": (
         "fault_enumeration",
@@ -134,8 +137,8 @@ CHECKS = {
         "and appear in the message.",
         "The serializer's recorded offsets are the ground truth; K9 and K12 "
         "are attributed by snippet / by the exact entity shift; that valid "
-        "templates are never rejected is asserted on every valid template "
-        "generated by C01, C03 and C04.",
+        "templates are never rejected is asserted by the part 'valid' and on "
+        "every valid template generated by C01, C03 and C04.",
         "DESIGN.md 3/C11"),
     "C12": (
         "fault_enumeration",
@@ -285,8 +288,8 @@ CHECKS = {
         "attributes, CR handling) and content_encoding must match what the "
         "document announces.",
         "Only self-consistent documents; meta-before-XML-declaration "
-        "ambiguity excluded; K8 (meta attribute order) attributed by its "
-        "trigger.",
+        "ambiguity excluded; both meta attribute orders and quoted / "
+        "unquoted values are generated.",
         "DESIGN.md 3/C17"),
     "C18": (
         "exploration",
